@@ -3,16 +3,11 @@
 package domain
 
 import (
-	"context"
-	"io"
-	"sync/atomic"
-
 	xfs "github.com/synnaxlabs/x/io/fs"
 	"github.com/synnaxlabs/x/telem"
 )
 
-//verif:redirect (*github.com/synnaxlabs/cesium/internal/domain.DB).newReader github.com/synnaxlabs/cesium/internal/domain.verifNewReader
-//verif:assume under the engine, domain readers are served from in-memory byte arrays (file controller and OS files not encoded); native replay builds the same domains on a real DB over an in-memory file system
+//verif:assume domains are stored in a real domain.DB over the real in-memory file system x/io/fs.MemFS (interpreted by the engine like any other code); OS files are not involved
 
 // VerifDomainSpec describes one stored domain: its time range and its bytes.
 type VerifDomainSpec struct {
@@ -20,84 +15,23 @@ type VerifDomainSpec struct {
 	Data       []byte
 }
 
-var verifReaderData = map[*DB]map[uint16][]byte{}
+// VerifBuildDB builds a DB holding exactly the given domains (non-empty data) on a fresh in-memory file system.
+func VerifBuildDB(specs []VerifDomainSpec) *DB { return VerifBuildRealDB(xfs.NewMem(), specs, nil) }
 
-type verifDataReader struct{ data []byte }
-
-func (r *verifDataReader) ReadAt(p []byte, off int64) (int, error) {
-	if off < 0 || int(off) > len(r.data) {
-		return 0, io.EOF
-	}
-	n := copy(p, r.data[off:])
-	if n < len(p) {
-		return n, io.EOF
-	}
-	return n, nil
-}
-
-func (r *verifDataReader) Close() error { return nil }
-
-func verifNewReader(db *DB, _ context.Context, ptr pointer) (*Reader, error) {
-	file := verifReaderData[db][ptr.fileKey]
-	lo, hi := int(ptr.offset), int(ptr.offset)+int(ptr.size)
-	if lo > len(file) {
-		lo = len(file)
-	}
-	if hi > len(file) {
-		hi = len(file)
-	}
-	return &Reader{ptr: ptr, ReaderAtCloser: &verifDataReader{data: file[lo:hi]}}, nil
-}
-
-// VerifBuildDB builds a DB holding exactly the given domains (sorted, disjoint, non-empty data). Under the engine
-// it is an index plus in-memory readers; natively it is a real DB on an in-memory file system filled through real
-// writers.
-func VerifBuildDB(specs []VerifDomainSpec) *DB { return VerifBuildDBInOrder(specs, nil) }
-
-// VerifBuildDBInOrder writes the domains in the given order (a permutation of 0..len(specs)-1; nil = as listed).
-// Under the engine every domain goes through the real index.insert, so out-of-order histories exercise the
-// index's search and insertion code; natively the writers are opened in that order.
+// VerifBuildDBInOrder writes the domains in the given order (a permutation of 0..len(specs)-1; nil = as listed)
+// through real writers: out-of-order histories exercise the index's search and insertion code.
 func VerifBuildDBInOrder(specs []VerifDomainSpec, order []int) *DB {
-	if order == nil {
-		for i := range specs {
-			order = append(order, i)
-		}
+	return VerifBuildRealDB(xfs.NewMem(), specs, order)
+}
+
+// VerifReopen closes db and opens a new DB on the same file system.
+func VerifReopen(db *DB, fs xfs.FS) *DB {
+	if err := db.Close(); err != nil {
+		panic(err)
 	}
-	ctx := context.Background()
-	if verifSymbolic() {
-		idx := &index{totalSize: &atomic.Int64{}}
-		db, _ := verifDB(idx)
-		verifReaderData[db] = map[uint16][]byte{}
-		for _, i := range order {
-			s := specs[i]
-			fk := uint16(i + 1)
-			verifReaderData[db][fk] = s.Data
-			if err := idx.insert(ctx, pointer{TimeRange: telem.TimeRange{Start: s.Start, End: s.End}, fileKey: fk, size: uint32(len(s.Data))}, false); err != nil {
-				panic(err)
-			}
-		}
-		return db
-	}
-	db, err := Open(Config{FS: xfs.NewMem()})
+	ndb, err := Open(Config{FS: fs})
 	if err != nil {
 		panic(err)
 	}
-	no := false
-	for _, i := range order {
-		s := specs[i]
-		w, err := db.OpenWriter(ctx, WriterConfig{Start: s.Start, EnableAutoCommit: &no})
-		if err != nil {
-			panic(err)
-		}
-		if _, err = w.Write(s.Data); err != nil {
-			panic(err)
-		}
-		if err = w.Commit(ctx, s.End); err != nil {
-			panic(err)
-		}
-		if err = w.Close(); err != nil {
-			panic(err)
-		}
-	}
-	return db
+	return ndb
 }
